@@ -18,7 +18,7 @@ Definition forwarded_reads_as_recorded (o : ref_opts) (r : request_head) (chunks
 (* send-side framing and the reference decision name the same framing for this body *)
 Definition framing_matches (r : request_head) (chunks : list bytes) : Prop :=
   match request_body_length (rq_version r) (rq_headers r) with
-  | Some BLChunked => send_chunked (rq_headers r) = true /\ Forall (fun c => c <> []) chunks
+  | Some BLChunked => send_chunked (rq_headers r) = true /\ True
   | Some (BLLen n) => send_chunked (rq_headers r) = false /\ n = N.of_nat (length (concat chunks))
   | Some BLZero => send_chunked (rq_headers r) = false /\ concat chunks = []
   | _ => False
@@ -27,21 +27,35 @@ Definition framing_matches (r : request_head) (chunks : list bytes) : Prop :=
 Lemma sent_bytes_app a b : sent_bytes (a ++ b) = sent_bytes a ++ sent_bytes b.
 Proof. induction a as [|[d|] a IH]; simpl; auto. rewrite IH, app_assoc. reflexivity. Qed.
 
+Definition chunk_or_nothing (c : bytes) : bytes := match c with [] => [] | _ => emit_chunk c end.
+
 Lemma sent_client_data r d :
-  sent_bytes (client_send_data r d) = if send_chunked (rq_headers r) then emit_chunk d else d.
+  sent_bytes (client_send_data r d) = if send_chunked (rq_headers r) then chunk_or_nothing d else d.
 Proof.
-  unfold client_send_data. destruct (send_chunked (rq_headers r)).
-  - destruct (emit_chunk d); simpl; rewrite ?app_nil_r; reflexivity.
-  - destruct d; simpl; rewrite ?app_nil_r; reflexivity.
+  unfold client_send_data, chunk_or_nothing. destruct d as [|x d]; cbn [nonempty andb].
+  - destruct (send_chunked _); reflexivity.
+  - destruct (send_chunked (rq_headers r)).
+    + destruct (emit_chunk (x :: d)); simpl; rewrite ?app_nil_r; reflexivity.
+    + simpl. rewrite ?app_nil_r. reflexivity.
 Qed.
 
 Lemma sent_client_chunks r cs :
   sent_bytes (concat (map (client_send_data r) cs)) =
-  if send_chunked (rq_headers r) then concat (map emit_chunk cs) else concat cs.
+  if send_chunked (rq_headers r) then concat (map chunk_or_nothing cs) else concat cs.
 Proof.
   induction cs as [|c cs IH]; simpl.
   - destruct (send_chunked _); reflexivity.
   - rewrite sent_bytes_app, sent_client_data, IH. destruct (send_chunked _); reflexivity.
+Qed.
+
+Definition ne_chunk (c : bytes) : bool := match c with [] => false | _ => true end.
+Lemma chunk_or_nothing_filter cs :
+  concat (map chunk_or_nothing cs) = concat (map emit_chunk (filter ne_chunk cs))
+  /\ concat (filter ne_chunk cs) = concat cs /\ Forall (fun c => c <> []) (filter ne_chunk cs).
+Proof.
+  induction cs as [|c cs (A & B & C)]; [repeat split; constructor|].
+  destruct c as [|x c]; simpl; [repeat split; assumption|].
+  rewrite A, B. repeat split. constructor; [discriminate | exact C].
 Qed.
 
 Lemma skip_empty_token_start m s : is_token m = true -> skip_empty_lines (m ++ [SP] ++ s) = m ++ [SP] ++ s.
@@ -75,8 +89,10 @@ Proof.
     { destruct (expected_http_body_size r None) as [[z|]| |]; cbn [bind] in Ee; try discriminate;
         [destruct (Z.eqb z MINUS1)|]; injection Ee as <-; reflexivity. }
     rewrite H, FB. cbn [app]. rewrite (body_reframe_length o (concat chunks) rest). reflexivity.
-  - (* chunked *) injection Ee as <-. cbn [sent_bytes]. rewrite app_nil_r.
-    rewrite (body_reframe_read_body o chunks rest FB). reflexivity.
+  - (* chunked: empty data events write nothing, the others one chunk each *)
+    injection Ee as <-. cbn [sent_bytes]. rewrite app_nil_r.
+    destruct (chunk_or_nothing_filter chunks) as (A & B & C). rewrite A.
+    rewrite (body_reframe_read_body o _ rest C), B. reflexivity.
 Qed.
 
 (* ---------- refutation witnesses: heads the parser and validation accept, whose forwarded bytes no RFC 9112
@@ -165,7 +181,7 @@ Proof.
   split; [vm_compute; reflexivity|]. split; [exact sample_inv|]. split.
   - unfold framing_matches. 
     change (request_body_length (rq_version sample_req) (rq_headers sample_req)) with (Some BLChunked).
-    split; [vm_compute; reflexivity|]. repeat constructor; discriminate.
+    split; [vm_compute; reflexivity|exact I].
   - eexists. split; [vm_compute; reflexivity|]. vm_compute. reflexivity.
 Qed.
 
